@@ -20,6 +20,18 @@ def arr(F, rows):
     return np.array(rows, dtype=float)
 
 
+def const(F, a):
+    """concrete numbers as exact constants of the mode (Sym constants in symbolic mode, so that
+    arithmetic on them is exact rational arithmetic, not rounded float arithmetic)"""
+    a = np.asarray(a, dtype=float)
+    if not F.sym:
+        return a.copy()
+    out = np.empty(a.shape, dtype=object)
+    for i in np.ndindex(*a.shape):
+        out[i] = Sym.of(float(a[i]))
+    return out
+
+
 def eye(F, n):
     return np.eye(n).astype(object) if F.sym else np.eye(n)
 
@@ -175,8 +187,9 @@ def honest(F, ob, name, t):
         ob.eq(name + ".t=0", tr, np.zeros(n))
     elif isinstance(t, mt.Similarity):
         G = L.T.dot(L)
+        # k = G[0,0] is a sum of squares (>= 0); k != 0 follows from the separate determinant
+        # obligation of the caller (det != 0), so k > 0 needs no query of its own
         ob.eq(name + ".AtA=kI", G, I * G[0, 0])
-        ob.true(name + ".k>0", G[0, 0] > 0) if F.sym else ob.true(name + ".k>0", G[0, 0] > 0)
 
 
 def pointcloud(F, tag, n_pts, n):
